@@ -20,6 +20,9 @@ fn kinds() -> Vec<Term> {
         tag("empty", vec![]),
         tag("blank", vec![]),
         tag("long", vec![]),
+        // names that look like array elements: still plain locals named by the whole string
+        tag("req", vec![ts("a(1)")]),
+        tag("opt", vec![ts("x(k)"), ts("dflt")]),
     ]
 }
 
@@ -76,7 +79,7 @@ pub fn gen(tier: &str, seed: u64) -> Gen {
             n += 1;
         }
     }
-    (cases, vec![(format!("all parameter lists of length<={} over 12 specifier kinds x call arities 0..n+2", maxlen), n, thorough)])
+    (cases, vec![(format!("all parameter lists of length<={} over 14 specifier kinds (two of them named like array elements) x call arities 0..n+2", maxlen), n, thorough)])
 }
 
 pub fn run(case: &Term) -> Term {
@@ -86,14 +89,21 @@ pub fn run(case: &Term) -> Term {
     // the body reports every declared parameter
     let mut body = String::new();
     let mut seen: Vec<String> = Vec::new();
+    let elem_like = |n: &str| n.contains('(') && n.ends_with(')');
     for k in kinds {
         if let Some(nm) = name_of(k) {
             if !seen.contains(&nm) {
-                let q = Value::from(vec![Value::from(nm.as_str())]);
-                body.push_str(&format!("rec {} [set {}]\n", q.as_str(), q.as_str()));
+                if !elem_like(&nm) {
+                    let q = Value::from(vec![Value::from(nm.as_str())]);
+                    body.push_str(&format!("rec {} [set {}]\n", q.as_str(), q.as_str()));
+                }
                 seen.push(nm);
             }
         }
+    }
+    // parameters named like array elements cannot be read back by any command: count the locals
+    if seen.iter().any(|n| elem_like(n)) {
+        body.push_str("rec locals [llength [info locals]]\n");
     }
     body.push_str("return done");
     let def = Value::from(vec![Value::from("proc"), Value::from("p"), Value::from(specs), Value::from(body.as_str())]);
